@@ -5,7 +5,7 @@ import random
 
 import numpy as np
 
-from .. import env, files, oracles, reads
+from .. import env, files, monitors, oracles, reads
 
 ID, TITLE, LEVEL = 'C14', 'bounds safety', 'exploration'
 RULE = ('case = one SGZ file (3D regular / irregular / 2D; padded extent larger than the real one) x all public read '
@@ -136,6 +136,9 @@ def gen_calls_3d(sp, V, gm, rng, n):
             if nT <= v < nI * nX:
                 calls.append(('r', 'get_trace', (v,), 'hole-ordinal', None))
                 calls.append(('r', 'gen_trace_header', (v,), 'hole-ordinal', None))
+    # ordinals that are not whole numbers denote no item at all (refused with whatever error; never rounded to a neighbouring item)
+    for m_, a_ in (('get_trace', (-0.5,)), ('read_inline', (-0.9,)), ('read_crossline', (0.5,)), ('read_zslice', (nZ - 0.5,)), ('gen_trace_header', (0.25,))):
+        calls.append(('r', m_, a_, 'non-integral-ordinal', None))
     # sample windows
     for (lo, hi), c in oob_ranges(nZ, pZ, rng):
         t = rng.randrange(nT)
@@ -168,6 +171,10 @@ def gen_calls_3d(sp, V, gm, rng, n):
             L = len([i for i in range(nI) if 0 <= d - i < nX])
         for (lo, hi), c in oob_ranges(L, L, rng):
             calls.append(('r', name, (d, lo, hi), 'crop-' + c, None))
+        # a bound given on its own (the other end is the end of the diagonal / trace) is checked like a pair
+        calls += [('r', name, (d, L), 'crop-one-sided', None), ('r', name, (d, L + 3), 'crop-one-sided', None), ('r', name, (d, None, L + 1), 'crop-one-sided', None),
+                  ('r', name, (d, -1), 'crop-one-sided', None), ('r', name, (d, None, None, nZ), 'window-one-sided', None),
+                  ('r', name, (d, None, None, None, nZ + 1), 'window-one-sided', None), ('r', name, (d, None, None, -1), 'window-one-sided', None)]
         for (lo, hi), c in oob_ranges(nZ, pZ, rng):
             calls.append(('r', name, (d, None, None, lo, hi), 'window-' + c, None))
     # emulator ordinals
@@ -231,9 +238,13 @@ def run_case(case, ctx):
     calls = gen_calls_2d(sp, V, rng, case['n']) if sp.is2d else gen_calls_3d(sp, V, gm, rng, case['n'])
     bad, keys, tally = [], set(), {}
     n = 0
-    for warm in (False, True):
-        with SgzReader(path) as r, seismic_zfp.open(path) as f:
-            if warm:
+    for warm in (False, True, 'remote'):
+        # (third pass: the same calls through the remote backend - a client object instead of a path)
+        with (SgzReader(path) if warm != 'remote' else SgzReader(monitors.FakeBlob(path))) as r, \
+                (seismic_zfp.open(path) if warm != 'remote' else seismic_zfp.open(monitors.FakeBlob(path))) as f:
+            if warm == 'remote':
+                kind_tag = 'remote'
+            if warm is True:
                 # warm state: every stored header array already loaded through the tracefield API (bounds must not depend on that)
                 for k in sp.stored:
                     r.get_tracefield_values(k)
@@ -250,7 +261,7 @@ def run_case(case, ctx):
                 except Exception as e:  # noqa
                     t = type(e).__name__
                     tally['%s|%s|%s' % (label, cls, t)] = tally.get('%s|%s|%s' % (label, cls, t), 0) + 1
-                    if t not in OK_EXC:
+                    if t not in OK_EXC and cls != 'non-integral-ordinal':
                         bad.append({'sig': '%s:%s:%s:raises-%s' % (kind, label, cls, t),
                                     'detail': '%s%s -> %s: %s' % (label, args, t, str(e)[:200])})
                     continue
